@@ -131,13 +131,13 @@ func onlyLoopEndSkips(p *Prog, r *Report, rule, site string, fn *ssa.Function, p
 // the configured extractors. Audited: the extractor does not require the file; the size limit is
 // exceeded / the size cannot be determined (those end the file for every extractor, by design).
 var extractorLoopSanctioned = []string{
-	"!extractor/filesystem.Extractor.FileRequired(param0.extractors[ι],param0.fileAPI)",
+	"!extractor/filesystem.FileRequired(param0.extractors[ι],param0.fileAPI)",
 	"range-end: param0.extractors",
-	"extractor/filesystem.fileSize(param0.fileAPI)#1 != nil:error",
-	"param0.maxFileSize < extractor/filesystem.fileSize(param0.fileAPI)#0",
+	"extractor/filesystem.Stat(param0.fileAPI)#1 != nil:error",
+	"param0.maxFileSize < io/fs.FileInfo.Size(extractor/filesystem.Stat(param0.fileAPI)#0)",
 	// early exits of the loop: only the two size-limit decisions (they end the file for every extractor)
-	"exit: extractor/filesystem.fileSize(param0.fileAPI)#1 != nil:error",
-	"exit: param0.maxFileSize < extractor/filesystem.fileSize(param0.fileAPI)#0",
+	"exit: extractor/filesystem.Stat(param0.fileAPI)#1 != nil:error",
+	"exit: param0.maxFileSize < io/fs.FileInfo.Size(extractor/filesystem.Stat(param0.fileAPI)#0)",
 }
 
 func extractorLoopRule(p *Prog, r *Report, e *engine, rule string) {
